@@ -559,6 +559,7 @@ def main():
     })
     v.assumptions = ["exact-rational semantics of the kernels; float rounding is outside the theorems (DESIGN 3.1)",
                      "reset functions do not depend on the params argument (true for every reset function in the library)"]
+    v.cov["added_after_wave_7"] = 'step oracle: every sample handed over in one re-used (1, d) buffer (categories must not alias it)'
     sys.exit(v.finish())
 
 
